@@ -922,9 +922,10 @@ DFANIgetannlen(const char *filename, uint16 tag, uint16 ref, int type)
         HCLOSE_GOTO_ERROR(file_id, DFE_INTERNAL, FAIL);
     anntag = (uint16)((type == DFAN_LABEL) ? DFTAG_DIL : DFTAG_DIA); /* set type tag */
 
-    annlength = Hlength(file_id, anntag, annref) - 4; /* 4=len of data tag/ref */
+    annlength = Hlength(file_id, anntag, annref);
     if (annlength == FAIL)
         HCLOSE_GOTO_ERROR(file_id, DFE_BADLEN, FAIL);
+    annlength -= 4; /* 4=len of data tag/ref */
     Lastref = annref;            /* remember ref last accessed */
     if (Hclose(file_id) == FAIL) /* close file */
         ret_value = FAIL;
